@@ -128,6 +128,21 @@ class MergeExact(Monitor):
         # C01 apply instead
         if aligned and n >= 3:
             ctx.count('C09.aligned_nary_not_in_quantifier')
+            # ... but "accepts exactly" has a half that holds for any number of inputs: what the
+            # result accepts, every input accepts (nothing may be gained by folding)
+            if ok:
+                ctx.evaluated()
+                ctx.count('C09.aligned_nary_no_gain_checked')
+                sp = oracle.space_for(ins + [bparams(value)])
+                common = sp.full
+                for p in ins:
+                    common &= sp.acc(p)
+                res = bparams(value)
+                extra = sp.acc(res) & sp.noncolliding(res, ins) & ~common
+                if extra:
+                    ctx.violation('C09', 'MergeExact', 'merge-extra-aligned-nary',
+                                  'merge of %d name-aligned inputs accepts a non-colliding call some input rejects' % n,
+                                  {'inputs': names, 'result': show_params(res), 'shape': sp.first(extra)}, rp)
         if aligned and n == 2:
             ctx.evaluated()
             ctx.count('C09.aligned')
